@@ -51,7 +51,8 @@ impl SeiTypes {
             let mut d = vec![]; let mut t = id; while t >= 255 { d.push(0xff); t -= 255; } d.push(t as u8); d.push(0); d.push(0x80);
             let mut scratch = vec![];
             let mut sr = SeiReader::from_rbsp_bytes(&d[..], &mut scratch);
-            let name = match sr.next() { Ok(Some(m)) => format!("{:?}", m.payload_type), _ => "?".to_string() };
+            // (probing the library: a panic there must not take the harness down - the case lines will show it)
+            let name = catch_unwind(AssertUnwindSafe(|| match sr.next() { Ok(Some(m)) => format!("{:?}", m.payload_type), _ => "?".to_string() })).unwrap_or_else(|_| "PANIC".to_string());
             names.push(name);
         }
         SeiTypes { names }
@@ -69,7 +70,7 @@ impl SeiTypes {
 fn t35_names() -> Vec<String> {
     use h264_reader::nal::sei::{SeiMessage, HeaderType, user_data_registered_itu_t_t35::ItuTT35};
     (0..=254u8).map(|b| { let pl = [b]; let msg = SeiMessage { payload_type: HeaderType::UserDataRegisteredItuTT35, payload: &pl[..] };
-        match ItuTT35::read(&msg) { Ok((c, _)) => format!("{:?}", c), Err(_) => "?".to_string() } }).collect()
+        catch_unwind(AssertUnwindSafe(|| match ItuTT35::read(&msg) { Ok((c, _)) => format!("{:?}", c), Err(_) => "?".to_string() })).unwrap_or_else(|_| "PANIC".to_string()) }).collect()
 }
 
 pub struct Runner { scratch: std::cell::OnceCell<Context>, pub ctx: Context, pub sei_types: std::rc::Rc<SeiTypes>, pub t35_names: std::rc::Rc<Vec<String>> }
